@@ -161,11 +161,11 @@ func (k *skel) stmt(depth int, s ast.Stmt) {
 		case v.Tok == token.CONTINUE && v.Label == nil:
 			k.line(depth, "continueS", ".none", ".none")
 		case v.Tok == token.CONTINUE && v.Label != nil:
-			// `continue L`: the label and the number of loops to leave before continuing (0 = the
-			// innermost enclosing loop carries the label)
+			// `continue L`: the number of loops to leave before continuing (0 = the innermost
+			// enclosing loop carries the label); the label's name is not part of the tie (as for locals)
 			for i := len(k.loops) - 1; i >= 0; i-- {
 				if k.loops[i] == v.Label.Name {
-					k.line(depth, "continueS", "(.var "+lstr(v.Label.Name)+")", fmt.Sprintf("(.int %d)", len(k.loops)-1-i))
+					k.line(depth, "continueS", "(.var \"L\")", fmt.Sprintf("(.int %d)", len(k.loops)-1-i))
 					return
 				}
 			}
